@@ -80,6 +80,18 @@ def run_property(pid: str, tier: str, seed: int, replay: str | None) -> int:
                          "correspondence budget escalated" % (last[-1][:600] if last else out.strip().split("\n")[-1][:300]))
         os.environ["VERIF_ESCALATE"] = "1"
 
+    # 1b. source fingerprint: when an anchored file differs from the committed fingerprint (someone changed the code the
+    # property rests on) the quick tier of this run gets a larger case budget (bounded, lib.Ctx.n); never an alarm by itself
+    try:
+        import covlib
+        fp_changed = covlib.fingerprint_changed(pid)
+    except Exception:  # noqa: BLE001
+        fp_changed = []
+    if fp_changed and tier == "quick" and not replay and os.environ.get("VERIF_NO_ESCALATE") != "1":
+        os.environ["VERIF_ESCALATE"] = "1"
+        ctx.note("anchored source differs from the committed fingerprint (%s): quick case budgets raised for this run (at most 6x, "
+                 "never beyond the thorough budget)" % ", ".join(fp_changed)[:600])
+
     # 2. build: driver first (needed for correspondence), then the property theorems
     rc, out = lib.lake_build(["drv"])
     if rc != 0:
@@ -290,9 +302,15 @@ def main() -> int:
     ap = argparse.ArgumentParser()
     ap.add_argument("pid", nargs="?")
     ap.add_argument("--setup", action="store_true")
+    ap.add_argument("--fingerprint", action="store_true", help="rewrite fingerprints/*.json from the current tree of pycoin")
     ap.add_argument("--tier", default=os.environ.get("VERIF_TIER") or "quick")
     ap.add_argument("--replay")
     a = ap.parse_args()
+    if a.fingerprint:
+        import covlib
+        covlib.write_fingerprints()
+        print("fingerprints written")
+        return 0
     if a.setup:
         return setup()
     if not a.pid:
